@@ -26,13 +26,13 @@ fn models(tier: Tier) -> Vec<Model> {
             v.extend(gen::m9(0).into_iter().step_by(2));
         }
         Tier::Thorough => {
-            v.extend(gen::m1(1).into_iter().step_by(17));
-            v.extend(gen::m2(1).into_iter().step_by(2003));
-            v.extend(gen::m3(1).into_iter().step_by(97));
-            v.extend(gen::m5(1).into_iter().step_by(23));
-            v.extend(gen::m7(1).into_iter().step_by(11));
-            v.extend(gen::m8(1).into_iter().step_by(3));
-            v.extend(gen::m9(1));
+            v.extend(gen::m1(1).into_iter().step_by(53));
+            v.extend(gen::m2(1).into_iter().step_by(4001));
+            v.extend(gen::m3(1).into_iter().step_by(197));
+            v.extend(gen::m5(1).into_iter().step_by(47));
+            v.extend(gen::m7(1).into_iter().step_by(23));
+            v.extend(gen::m8(1).into_iter().step_by(7));
+            v.extend(gen::m9(1).into_iter().step_by(2));
         }
     }
     v
@@ -41,15 +41,20 @@ fn models(tier: Tier) -> Vec<Model> {
 /// Assumption predicate alphabet of a model: all predicate kinds over the first variables, with
 /// values inside, at the border of and outside the domain.
 fn alphabet(model: &Model, tier: Tier) -> Vec<Pred> {
-    let nv = if tier.quick() { 2 } else { 3 };
+    let nv = 2;
     let mut out = vec![];
     for v in 0..model.vars.len().min(nv) {
         let ps = gen::preds_of(v, &model.vars[v]);
-        // thin out: keep every second predicate in quick mode
-        let step = if tier.quick() { 2 } else { 1 };
+        // thin out: keep every second predicate in quick mode and for the larger models
+        let step = if tier.quick() || heavy(model) { 2 } else { 1 };
         out.extend(ps.into_iter().step_by(step));
     }
     out
+}
+
+/// The larger models (M8, M9): fewer assumption lists per model.
+fn heavy(model: &Model) -> bool {
+    model.space_size() > 1500
 }
 
 /// Two predicates over the same variable which no integer satisfies together.
@@ -77,7 +82,8 @@ fn combos(tier: Tier) -> Vec<(Cfg, BrancherSpec)> {
         ]
     } else {
         let mut v: Vec<(Cfg, BrancherSpec)> = cfgs.iter().map(|c| (*c, brs[0].clone())).collect();
-        v.extend(cfgs.iter().enumerate().map(|(i, c)| (*c, brs[1 + i % (brs.len() - 1)].clone())));
+        v.push((cfgs[1], brs[1].clone()));
+        v.push((cfgs[2], brs[2].clone()));
         v
     }
 }
@@ -124,14 +130,14 @@ impl Property for C05 {
                     lists.push(vec![*a, *b]);
                 }
             }
-            if max_len >= 3 {
+            if max_len >= 3 && !heavy(model) {
                 // triples: a stride (the full cube is too large)
                 let mut k = 0usize;
                 for a in &alpha {
                     for b in &alpha {
                         for c in &alpha {
                             k += 1;
-                            if k % 13 == 0 {
+                            if k % 997 == 0 {
                                 lists.push(vec![*a, *b, *c]);
                             }
                         }
